@@ -435,8 +435,209 @@ func runC12(cfg Config) {
 			monitor("WriteDedupQueue: a read that arrived while a write of the same chunk was in flight did not see that chunk: "+late, caseLine)
 		}
 	}
+	// directed: requests of different kinds for one chunk ID overlap — a HasChunk while a GetChunk is upstream (which
+	// then ends in "missing" or in an error) and the other way round.  Each caller must return the result of an
+	// upstream request of its own kind: the queues of the two kinds do not feed one another
+	for it := 0; it < cfg.N(40, 600); it++ {
+		for _, wq := range []bool{false, true} {
+			hasAnswer := it%2 == 0
+			getOutcome := []string{"missing", "error", "data"}[it%3]
+			data := randBytes(rng, 24)
+			id := desync.Digest.Sum(data)
+			st := &kindStore{gate: make(chan struct{}), entered: make(chan string, 8), hasAnswer: hasAnswer, getOutcome: getOutcome, data: data}
+			var q desync.Store = desync.NewDedupQueue(st)
+			if wq {
+				q = desync.NewWriteDedupQueue(st)
+			}
+			first := []string{"get", "has"}[(it/3)%2] // which kind is in flight when the other arrives
+			st.gated = first
+			res := make(chan string, 2)
+			call := func(kind string) {
+				if kind == "get" {
+					c, err := q.GetChunk(id)
+					res <- "get:" + getStr(c, err, data)
+				} else {
+					ok, err := q.HasChunk(id)
+					res <- fmt.Sprintf("has:%v:%v", ok, err != nil)
+				}
+			}
+			go call(first)
+			select {
+			case <-st.entered:
+			case <-time.After(5 * time.Second):
+			}
+			second := map[string]string{"get": "has", "has": "get"}[first]
+			go call(second)
+			var got []string
+			select { // the second request does not depend on the first: it returns while the first is still held
+			case r := <-res:
+				got = append(got, r)
+			case <-time.After(2 * time.Second):
+				got = append(got, second+":blocked-behind-the-other-kind")
+			}
+			close(st.gate)
+			select {
+			case r := <-res:
+				got = append(got, r)
+			case <-time.After(5 * time.Second):
+				got = append(got, "never-returned")
+			}
+			caseLine := fmt.Sprintf("dedup-kinds it=%d queue=%s in-flight=%s has-answer=%v get-outcome=%s", it, map[bool]string{false: "DedupQueue", true: "WriteDedupQueue"}[wq], first, hasAnswer, getOutcome)
+			rep.Count(caseLine, true, "dedup-kinds")
+			wantGet := "get:" + getOutcome
+			wantHas := fmt.Sprintf("has:%v:false", hasAnswer)
+			for _, g := range got {
+				if strings.HasPrefix(g, "get:") && g != wantGet {
+					monitor("a GetChunk overlapping a HasChunk of the same chunk returned "+g+", the upstream GetChunk answered "+getOutcome, caseLine)
+				}
+				if strings.HasPrefix(g, "has:") && g != wantHas {
+					monitor(fmt.Sprintf("a HasChunk overlapping a GetChunk of the same chunk returned %s, the upstream HasChunk answers %v (upstream HasChunk calls: %d)", g, hasAnswer, st.hasCalls), caseLine)
+				}
+			}
+			if st.hasCalls != 1 || st.getCalls != 1 {
+				monitor(fmt.Sprintf("one GetChunk and one HasChunk were issued; upstream saw %d GetChunk and %d HasChunk requests", st.getCalls, st.hasCalls), caseLine)
+			}
+		}
+	}
+	// directed: several writers of one chunk while the upstream store fails that write: every writer, and every
+	// reader overlapping the write, is told about the failure
+	for it := 0; it < cfg.N(30, 400); it++ {
+		st := &failingWriteStore{gate: make(chan struct{}), entered: make(chan struct{}, 16)}
+		q := desync.NewWriteDedupQueue(st)
+		data := randBytes(rng, 24)
+		nw := 2 + rng.Intn(4)
+		res := make(chan string, 16)
+		for w := 0; w < nw; w++ {
+			go func() {
+				if err := q.StoreChunk(desync.NewChunk(data)); err != nil {
+					res <- "w:error"
+				} else {
+					res <- "w:nil"
+				}
+			}()
+			if w == 0 {
+				select {
+				case <-st.entered:
+				case <-time.After(5 * time.Second):
+				}
+			}
+		}
+		nr := rng.Intn(3)
+		for r := 0; r < nr; r++ {
+			go func() {
+				if _, err := q.GetChunk(desync.Digest.Sum(data)); err != nil {
+					res <- "r:error"
+				} else {
+					res <- "r:nil"
+				}
+			}()
+		}
+		time.Sleep(time.Duration(300+rng.Intn(1500)) * time.Microsecond)
+		close(st.gate)
+		caseLine := fmt.Sprintf("writededup-failing it=%d writers=%d readers=%d", it, nw, nr)
+		rep.Count(caseLine, true, "writededup-failing")
+		for k := 0; k < nw+nr; k++ {
+			select {
+			case r := <-res:
+				if r == "w:nil" {
+					monitor(fmt.Sprintf("StoreChunk reported success although every upstream StoreChunk request failed (%d upstream requests)", st.calls), caseLine)
+				}
+				if r == "r:nil" {
+					monitor("a GetChunk reported success for a chunk whose only write failed and which the store does not hold", caseLine)
+				}
+			case <-time.After(5 * time.Second):
+				monitor("a caller of the write queue never returned", caseLine)
+			}
+		}
+	}
 	rep.Write(cfg.Out)
 }
+
+func getStr(c *desync.Chunk, err error, data []byte) string {
+	switch {
+	case err != nil:
+		if _, ok := err.(desync.ChunkMissing); ok {
+			return "missing"
+		}
+		return "error"
+	case c == nil:
+		return "nil-chunk"
+	}
+	b, _ := c.Data()
+	if !bytes.Equal(b, data) {
+		return "other-bytes"
+	}
+	return "data"
+}
+
+// kindStore: requests of kind `gated` block at entry until the gate opens; answers are fixed
+type kindStore struct {
+	mu         sync.Mutex
+	gate       chan struct{}
+	entered    chan string
+	gated      string
+	hasAnswer  bool
+	getOutcome string
+	data       []byte
+	getCalls   int
+	hasCalls   int
+}
+
+func (s *kindStore) GetChunk(id desync.ChunkID) (*desync.Chunk, error) {
+	s.mu.Lock()
+	s.getCalls++
+	s.mu.Unlock()
+	if s.gated == "get" {
+		s.entered <- "get"
+		<-s.gate
+	}
+	switch s.getOutcome {
+	case "missing":
+		return nil, desync.ChunkMissing{ID: id}
+	case "error":
+		return nil, errors.New("upstream failure")
+	}
+	return desync.NewChunkWithID(id, s.data, false)
+}
+func (s *kindStore) HasChunk(id desync.ChunkID) (bool, error) {
+	s.mu.Lock()
+	s.hasCalls++
+	s.mu.Unlock()
+	if s.gated == "has" {
+		s.entered <- "has"
+		<-s.gate
+	}
+	return s.hasAnswer, nil
+}
+func (s *kindStore) StoreChunk(c *desync.Chunk) error { return nil }
+func (s *kindStore) Close() error                     { return nil }
+func (s *kindStore) String() string                   { return "kinds" }
+
+// failingWriteStore: StoreChunk blocks until the gate opens, then fails; the store holds nothing
+type failingWriteStore struct {
+	mu      sync.Mutex
+	gate    chan struct{}
+	entered chan struct{}
+	calls   int
+}
+
+func (s *failingWriteStore) GetChunk(id desync.ChunkID) (*desync.Chunk, error) {
+	return nil, desync.ChunkMissing{ID: id}
+}
+func (s *failingWriteStore) HasChunk(id desync.ChunkID) (bool, error) { return false, nil }
+func (s *failingWriteStore) StoreChunk(c *desync.Chunk) error {
+	s.mu.Lock()
+	s.calls++
+	s.mu.Unlock()
+	select {
+	case s.entered <- struct{}{}:
+	default:
+	}
+	<-s.gate
+	return errors.New("upstream store failure")
+}
+func (s *failingWriteStore) Close() error   { return nil }
+func (s *failingWriteStore) String() string { return "failing-write" }
 
 // twoGateStore: GetChunk decides at entry (the chunk is not there yet), then blocks; StoreChunk blocks before storing
 type twoGateStore struct {
